@@ -93,3 +93,113 @@ let judge_c01 (_euis : n list) (steps : step list) : string =
     if debug && before = "ok" && !verdict <> "ok" then prerr_endline (Printf.sprintf "judge: step %d: %s\n  prev=%s\n  obs=%s" !k !verdict !prev st.impl_obs);
     prev := cur) steps;
   !verdict
+
+(* ---------- parsing the implementation's dumps ---------- *)
+type ddump = { x_eui : string; x_addr : string; x_nwk : string; x_app : string; x_fup : int; x_fdn : int; x_inbox : string list;
+               x_outbox : (int * bool * bool * int) list; x_nonces : string }
+let kvs s = List.filter_map (fun t -> match String.index_opt t '=' with
+    | Some i -> Some (String.sub t 0 i, String.sub t (i + 1) (String.length t - i - 1)) | None -> None) (String.split_on_char ' ' s)
+let bracket s = (* "[a,b]" -> ["a";"b"] *)
+  let s = String.trim s in
+  if String.length s < 2 then [] else
+  let inner = String.sub s 1 (String.length s - 2) in if inner = "" then [] else String.split_on_char ',' inner
+let parse_dump dump : ddump list =
+  let parts = Str.split (Str.regexp_string " ; ") dump in
+  let devs = Hashtbl.create 8 in
+  let order = ref [] in
+  List.iter (fun p ->
+    match String.split_on_char ' ' p with
+    | "dev" :: eui :: _ ->
+      let kv = kvs p in
+      let g k = try List.assoc k kv with Not_found -> "" in
+      if g "addr" <> "" then begin
+        Hashtbl.replace devs eui { x_eui = eui; x_addr = g "addr"; x_nwk = g "nwk"; x_app = g "app"; x_fup = int_of_string (g "fup");
+                                   x_fdn = int_of_string (g "fdn"); x_inbox = []; x_outbox = []; x_nonces = g "nonces" };
+        order := eui :: !order end
+    | "outbox" :: eui :: rest ->
+      (try let dd = Hashtbl.find devs eui in
+         let items = List.map (fun it -> match String.split_on_char ':' it with
+             | [c; s; a; f] -> (int_of_string c, s = "1", a = "1", int_of_string f) | _ -> (0, false, false, 0)) (bracket (String.concat " " rest)) in
+         Hashtbl.replace devs eui { dd with x_outbox = items } with Not_found -> ())
+    | "inbox" :: eui :: rest ->
+      (try let dd = Hashtbl.find devs eui in Hashtbl.replace devs eui { dd with x_inbox = bracket (String.concat " " rest) } with Not_found -> ())
+    | _ -> ()) parts;
+  List.rev_map (fun e -> Hashtbl.find devs e) !order
+
+let find_dev l eui = List.find_opt (fun d -> d.x_eui = eui) l
+
+let frame_fcnt raw = match spec_decode raw with Some g -> Some (int_of_n g.s_fcnt) | None -> None
+
+(* C03: per device and session, the counters of recorded uplinks strictly increase *)
+let judge_c03 (_euis : n list) (steps : step list) : string =
+  let verdict = ref "ok" in
+  let prev = ref [] in
+  let last : (string, int) Hashtbl.t = Hashtbl.create 8 in   (* eui|nwk -> last recorded counter *)
+  let strict = Hashtbl.create 8 in
+  (match steps with
+   | st :: _ -> List.iter (fun (eui, ds) -> match ds.ds_row with Some r -> Hashtbl.replace strict (hex_of_n eui) (not r.d_relaxed) | None -> ()) st.pre.s_tab
+   | [] -> ());
+  List.iter (fun st ->
+    let cur = parse_dump (dump_of st.impl_obs) in
+    (match st.ev with
+     | Rx (rx, _, _) when !verdict = "ok" ->
+       List.iter (fun d ->
+         match find_dev !prev d.x_eui with
+         | Some p when List.length d.x_inbox > List.length p.x_inbox ->
+           if List.length d.x_inbox > List.length p.x_inbox + 1 then verdict := "bad:recorded-twice-in-one-step"
+           else if (try Hashtbl.find strict d.x_eui with Not_found -> false) then begin
+             match frame_fcnt rx.rx_raw with
+             | None -> verdict := "bad:recorded-undecodable"
+             | Some c ->
+               let key = d.x_eui ^ "|" ^ p.x_nwk in
+               if c < p.x_fup then verdict := "bad:recorded-below-expected-counter"
+               else (match Hashtbl.find_opt last key with
+                   | Some l when l < 65535 && c <= l -> verdict := "bad:counter-recorded-twice"
+                   | _ -> ());
+               if c < 65535 && d.x_fup <> c + 1 && d.x_nwk = p.x_nwk then verdict := "bad:expected-counter-not-past-recorded";
+               Hashtbl.replace last key c
+           end
+         | _ -> ()) cur
+     | _ -> ());
+    if cur <> [] then prev := cur) steps;
+  !verdict
+
+(* attribute a data downlink to the device whose keys verify it (reference device) *)
+let owner_of (devs : ddump list) (raw : n list) =
+  List.find_opt (fun d ->
+    match ref_on_downlink e (bytes_of_hex d.x_nwk) (bytes_of_hex d.x_app) (n_of_hex d.x_addr) raw with Some _ -> true | None -> false) devs
+
+(* C07: (session key, downlink counter) pairs are never reused *)
+let judge_c07 (_euis : n list) (steps : step list) : string =
+  let verdict = ref "ok" in
+  let prev = ref [] in
+  let seen : (string, unit) Hashtbl.t = Hashtbl.create 16 in
+  List.iter (fun st ->
+    let cur = parse_dump (dump_of st.impl_obs) in
+    (match st.ev with
+     | Rx _ when !verdict = "ok" ->
+       (match split_obs st.impl_obs with
+        | Some (ds, _, _) ->
+          List.iter (fun dstr ->
+            let raw = bytes_of_hex (List.hd (String.split_on_char ':' dstr)) in
+            match raw with
+            | b0 :: _ when (int_of_n b0 / 32 = 3 || int_of_n b0 / 32 = 5) ->
+              (* keys as stored before the step (the session the frame belongs to) *)
+              (match owner_of !prev raw with
+               | None -> verdict := "bad:downlink-verifies-under-no-device"
+               | Some d ->
+                 let c = match frame_fcnt raw with Some c -> c | None -> -1 in
+                 let key = d.x_nwk ^ "|" ^ string_of_int c in
+                 if Hashtbl.mem seen key then verdict := "bad:downlink-counter-reused"
+                 else begin
+                   Hashtbl.replace seen key ();
+                   if c <> d.x_fdn then verdict := "bad:downlink-counter-not-stored-value"
+                   else (match find_dev cur d.x_eui with
+                       | Some d' when d'.x_fdn <> (c + 1) land 0xffff -> verdict := "bad:downlink-counter-not-advanced"
+                       | _ -> ())
+                 end)
+            | _ -> ()) ds
+        | None -> ())
+     | _ -> ());
+    if cur <> [] then prev := cur) steps;
+  !verdict
